@@ -404,6 +404,11 @@ def css(ctx):
                     "since the substitution is a single pass `ururl(1)l(2)` becomes `url(2)` and survives")])
     # CSS function names are ASCII case-insensitive: the stripper has to remove URL( / Url( as well
     comp = [c for c in ast.walk(first) if isinstance(c, ast.Call) and norm(c.func) in ("re.compile", "re.sub")] if isinstance(first, ast.Assign) else []
+    if not comp and isinstance(first, ast.Assign) and isinstance(first.value, ast.Call) and isinstance(first.value.func, ast.Attribute) \
+            and isinstance(first.value.func.value, ast.Name):
+        # a pattern compiled at module level: <name>.sub(..)
+        comp = [st.value for st in f.module.tree.body if isinstance(st, ast.Assign) and norm(st.targets[0]) == first.value.func.value.id
+                and isinstance(st.value, ast.Call) and norm(st.value.func) == "re.compile"]
     pat = ctx.ce.try_eval(comp[0].args[0], f.module) if comp and comp[0].args else None
     if isinstance(pat, str) and "url" in pat.lower():
         flags = " ".join(norm(a) for a in comp[0].args[1:] if norm(comp[0].func) == "re.compile") + " ".join(norm(k.value) for k in comp[0].keywords)
